@@ -372,8 +372,10 @@ def rule_e(ctx: Ctx) -> None:
     m = adv.module
     # what _advance treats as a line break
     outer = None
-    for st in walk_no_nested(adv.node):
-        if isinstance(st, ast.If) and any(isinstance(x, ast.AugAssign) and norm(x.target) == "self._line" for x in ast.walk(st)):
+    for st in adv.node.body:
+        # the per-character accounting: an `if` on the character being left (not the multi-character branch, rule C13.g)
+        if isinstance(st, ast.If) and any(isinstance(x, ast.AugAssign) and norm(x.target) == "self._line" for x in ast.walk(st)) \
+                and any(isinstance(x, ast.Compare) and isinstance(x.comparators[0], ast.Constant) and isinstance(x.comparators[0].value, str) for x in ast.walk(st.test)):
             outer = st
             break
     ctx.require(outer is not None, "anchor vanished: _advance no longer increments self._line under a condition")
@@ -462,7 +464,70 @@ def rule_f(ctx: Ctx) -> None:
     ctx.min_instances("subtractive_slice_bounds", n, 1)
 
 
-RULES = [rule_a, rule_b, rule_c, rule_d, rule_e, rule_f]
+def rule_g(ctx: Ctx) -> None:
+    ctx.rule("C13.g", "multi-character advances: _advance(i) only inspects the character it leaves, so for i > 1 it must count the line breaks among the characters it steps "
+                      "over (a branch on i that bumps self._line by the same count vector as the per-character rule and restarts the column after the last break) — "
+                      "otherwise ORDER\\nBY scanned as one keyword, or an escaped line break inside a string, leaves every later token on the wrong line")
+    adv = ctx.repo.func(TC, "TokenizerCore._advance")
+    m = adv.module
+    # callers that can step over more than one character exist (otherwise the branch is not needed)
+    tc = ctx.repo.cls(TC, "TokenizerCore")
+    multi = []
+    for name, md in tc.methods().items():
+        for c in walk_no_nested(md):
+            if isinstance(c, ast.Call) and call_name(c) == "self._advance" and c.args:
+                a = c.args[0]
+                if isinstance(a, ast.Constant) and isinstance(a.value, int) and a.value <= 1:
+                    continue
+                if isinstance(a, ast.UnaryOp) and isinstance(a.op, ast.USub):
+                    continue
+                multi.append((name, c))
+    ctx.count("multi_character_advance_sites", len(multi))
+    branch = None
+    for st in adv.node.body:
+        if isinstance(st, ast.If) and isinstance(st.test, ast.Compare) and norm(st.test.left) == "i" and isinstance(st.test.ops[0], (ast.Gt, ast.GtE)) \
+                and any(isinstance(x, ast.AugAssign) and norm(x.target) == "self._line" for x in ast.walk(st)):
+            branch = st
+    if not multi:
+        ctx.ok(f"{adv.key}|no multi-character advance", None)
+        return
+    if branch is None:
+        nm, c0 = multi[0]
+        ctx.fail(m, adv.node, adv.key, "def _advance(self, i=1, ...)",
+                 f"_advance has no branch for i > 1 that counts the line breaks it steps over, but {len(multi)} call sites advance by more than one character "
+                 f"(e.g. {nm}: {norm(c0)}): a line break inside the skipped text is never counted")
+        return
+    env = {}
+    for st in ast.walk(branch):
+        if isinstance(st, ast.Assign) and len(st.targets) == 1 and isinstance(st.targets[0], ast.Name):
+            env.setdefault(st.targets[0].id, st.value)
+    bumps = [st for st in ast.walk(branch) if isinstance(st, ast.AugAssign) and norm(st.target) == "self._line" and isinstance(st.op, ast.Add)]
+    got = _count_vector(bumps[0].value, env) if bumps else None
+    # the per-character definition (same reading as C13.e)
+    per_char = None
+    for st in adv.node.body:
+        if isinstance(st, ast.If) and st is not branch and any(isinstance(x, ast.AugAssign) and norm(x.target) == "self._line" for x in ast.walk(st)):
+            chars = {x.comparators[0].value for x in ast.walk(st.test) if isinstance(x, ast.Compare) and isinstance(x.comparators[0], ast.Constant) and isinstance(x.comparators[0].value, str)}
+            per_char = {c_: 1 for c_ in chars}
+            for inner in ast.walk(st):
+                if isinstance(inner, ast.If) and inner is not st and isinstance(inner.test, ast.UnaryOp) and isinstance(inner.test.operand, ast.BoolOp):
+                    vs = inner.test.operand.values
+                    if len(vs) == 2 and all(isinstance(v_, ast.Compare) and isinstance(v_.comparators[0], ast.Constant) for v_ in vs):
+                        per_char[vs[0].comparators[0].value + vs[1].comparators[0].value] = -1
+    ctx.require(per_char is not None, "anchor vanished: per-character line accounting of _advance")
+    if got is not None and {k: v for k, v in got.items() if v} == per_char:
+        ctx.ok(f"{adv.key}|i > 1 counts the skipped line breaks like the per-character rule", {"vector": per_char, "multi_character_call_sites": len(multi)})
+    elif got is None:
+        ctx.ok(f"{adv.key}|i > 1 branch present, count form not recognised", {"decided": False})
+    else:
+        ctx.fail(m, bumps[0], adv.key, bumps[0], f"the i > 1 branch counts line breaks as {got} while a single step counts {per_char}")
+    if any(isinstance(x, ast.Assign) and norm(x.targets[0]) == "self._col" for x in ast.walk(branch)):
+        ctx.ok(f"{adv.key}|column restarted after the last skipped line break", None)
+    else:
+        ctx.fail(m, branch, adv.key, "if i > 1: ...", "the i > 1 branch bumps the line but does not restart the column")
+
+
+RULES = [rule_a, rule_b, rule_c, rule_d, rule_e, rule_f, rule_g]
 EXPLANATION = (
     "Representation invariants of the scanner cursor checked symbolically on every block that writes _current (linear "
     "normal form of offsets with local resolution, so the str.find and alnum fast paths are covered), the token stamp, "
